@@ -21,6 +21,7 @@ from harness.core import run_driver
 
 import FlowCal.io  # noqa
 import FlowCal.transform  # noqa
+import FlowCal.mef  # noqa
 import FlowCal.gate  # noqa
 
 RTOL = 2e-14
@@ -79,7 +80,9 @@ def main(chk, replay=None):
         # law is then applied twice - to the events and to the limits alike
         # (linear channels only: a log law applied to its own output leaves the floating-point range)
         twice = op == 'to_rfi' and chans[cols[0] - 1]['kind'] == 'lin' and draw(st.sampled_from([False, True]))
-        return dict(chans=chans, op=op, cols=cols, m=m, b=b, extra=extra, twice=twice)      # cols in the drawn (any) order
+        fitted = op == 'to_mef' and draw(st.booleans())
+        nozero = draw(st.sampled_from([False, False, True]))       # a sample without any event at the lower limits
+        return dict(chans=chans, op=op, cols=cols, m=m, b=b, extra=extra, twice=twice, fitted=fitted, nozero=nozero)
 
     @settings(max_examples=400 if chk.quick else 20000, deadline=None, database=None, derandomize=True,
               suppress_health_check=list(HealthCheck))
@@ -95,6 +98,8 @@ def main(chk, replay=None):
                 ev.append(row)
         ev += [[0, 0, 0], [R[0] - 1, R[1] - 1, R[2] - 1], [1, R[1] - 2, 5]]
         ev += [[min(e[k], R[k] - 2) for k in range(3)] for e in case['extra']]
+        if case.get('nozero'):
+            ev = [[max(v, 1) for v in e] for e in ev]
         fcsgen.write_sample(path, ev, ['c1', 'c2', 'c3'], R, bits=32, pne=[c['pne'] for c in case['chans']],
                             png=[c['gain'] for c in case['chans']])
         with warnings.catch_warnings():
@@ -118,6 +123,10 @@ def main(chk, replay=None):
                 x = FlowCal.transform.to_rfi(x0, [0, 1, 2])       # calibrate RFI data, as the workflow does
                 # one curve per channel (all different), calibration listed in file order, request in any order
                 scs = [std_curve(round(case['m'] + 0.04 * k, 4), round(case['b'] + 0.35 * k, 4)) for k in range(3)]
+                if case.get('fitted'):
+                    # the standard curves as a calibration makes them: fitted by the library to bead values on that law
+                    rfi_pts = np.array([10.0, 40.0, 160.0, 640.0, 2560.0, 9000.0])
+                    scs = [FlowCal.mef.fit_beads_autofluorescence(rfi_pts, f(rfi_pts))[0] for f in scs]
                 y = FlowCal.transform.to_mef(x, cols0, scs, [0, 1, 2])
                 fns = {c: scs[c] for c in cols0}
             m1 = FlowCal.gate.high_low(x, full_output=True).mask
@@ -138,9 +147,9 @@ def main(chk, replay=None):
                 uterm.append('raw' if raw_same else 'unknown')
                 rterm.append('raw' if yr.tolist() == xr.tolist() else 'unknown')
             x0v = np.asarray(x0.view(np.ndarray))
-            ilo = int(np.nonzero(x0v[:, c] == 0)[0][0])            # an event that sat at the raw lower limit
+            at_lo = np.nonzero(x0v[:, c] == 0)[0]                  # an event that sat at the raw lower limit (if any)
             ihi = int(np.nonzero(x0v[:, c] == R[c] - 1)[0][0])     # ... and at the raw upper limit
-            lo_bw.append(bool(float(yv[ilo, c]) == float(yr[0])))
+            lo_bw.append(bool(float(yv[int(at_lo[0]), c]) == float(yr[0])) if len(at_lo) else True)
             hi_bw.append(bool(float(yv[ihi, c]) == float(yr[1])))
         recs.append({'op': case['op'], 'cols': case['cols'], 'uterm': uterm, 'rterm': rterm, 'lim_lo_bitwise': lo_bw,
                      'lim_hi_bitwise': hi_bw, 'masks_equal': bool(np.array_equal(m1, m2))})
